@@ -28,7 +28,8 @@ SUBSET_CFGS = [
     # several methods behind one hook name, comments kept, chaining on, a prefix that is a non-ASCII identifier part
     {"localVarPrefix": "caf\u00e9", "comments": True, "chainSourceMap": True, "telemetryVerbosity": "DEBUG", "csiMethods": [
         {"src": "plusOperator", "operator": True}, {"src": "tplOperator", "operator": True}, {"src": "trim", "dst": "strOp"},
-        {"src": "concat", "dst": "strOp"}, {"src": "substring", "dst": "strOp"}, {"src": "slice", "dst": "strOp"}]},
+        {"src": "concat", "dst": "strOp"}, {"src": "substring", "dst": "strOp"}, {"src": "slice", "dst": "strOp"},
+        {"src": "padEnd", "dst": "strOp"}, {"src": "replaceAll"}]},
 ]
 
 WANT = ["in_ast", "out_ast", "effective_config", "events"]
@@ -79,6 +80,9 @@ def cases(seed, tier):
         pick = sysm if tier == "thorough" else rng.sample(sysm, 260)
         for name, code in pick:
             out.append({"name": "sys/cfg%d/%s" % (ci, name), "code": code, "config": cfg})
+    for name, code in sysm:
+        if "/lit_recv_pad_end" in name or "/lit_recv_replace_all" in name:
+            out.append({"name": "sys/cfg5x/" + name, "code": code, "config": SUBSET_CFGS[-1]})
     n_random = 1500 if tier == "quick" else 30000
     for i in range(n_random):
         reserved = "__datadog_p_%d" % rng.randint(0, 3) if rng.random() < 0.06 else None
